@@ -189,6 +189,50 @@ package snaps
 //@   ensures [lock] held[_m] == 0
 //@   ensures [exists] fsx[snapPath] == old(fsx[snapPath])
 
+// ---- Config construction (C12) ----------------------------------------------------------------
+// An option may only write the fields of the Config it is applied to (assumption about user-defined options;
+// the five options of this package are verified against it below).
+//@ func WithConfig.arg(c)
+//@   nobody
+//@   requires c != nil
+//@   assigns c.filename, c.snapsDir, c.extension, c.update, c.json, alloc
+//@
+//@ func WithConfig(args) returns (r)
+//@   mode ctl
+//@   assigns alloc
+//@   ensures [fresh] fresh(r)
+//@   ensures [defaults_kept] defaultConfig.filename == old(defaultConfig.filename) && defaultConfig.snapsDir == old(defaultConfig.snapsDir) && defaultConfig.extension == old(defaultConfig.extension) && defaultConfig.update == old(defaultConfig.update) && defaultConfig.json == old(defaultConfig.json)
+//@   ensures [no_args] len(args) == 0 ==> r.filename == defaultConfig.filename && r.snapsDir == defaultConfig.snapsDir && r.extension == defaultConfig.extension && r.update == defaultConfig.update && r.json == defaultConfig.json
+//@   loop 1 invariant s != nil && !old(alloc)[s]
+//@   loop 1 invariant forall r Ref: old(alloc)[r] ==> heap(Config.filename)[r] == old(heap(Config.filename))[r] && heap(Config.snapsDir)[r] == old(heap(Config.snapsDir))[r] && heap(Config.extension)[r] == old(heap(Config.extension))[r] && heap(Config.update)[r] == old(heap(Config.update))[r] && heap(Config.json)[r] == old(heap(Config.json))[r]
+//@   loop 1 invariant len(args) == 0 ==> s.filename == defaultConfig.filename && s.snapsDir == defaultConfig.snapsDir && s.extension == defaultConfig.extension && s.update == defaultConfig.update && s.json == defaultConfig.json
+//@
+//@ func Update$1(c)
+//@   mode ctl
+//@   requires c != nil
+//@   assigns c.update
+//@   ensures c.update != nil && *c.update == u
+//@ func Filename$1(c)
+//@   mode ctl
+//@   requires c != nil
+//@   assigns c.filename
+//@   ensures c.filename == name
+//@ func Dir$1(c)
+//@   mode ctl
+//@   requires c != nil
+//@   assigns c.snapsDir
+//@   ensures c.snapsDir == dir
+//@ func Ext$1(c)
+//@   mode ctl
+//@   requires c != nil
+//@   assigns c.extension
+//@   ensures c.extension == ext
+//@ func JSON$1(c)
+//@   mode ctl
+//@   requires c != nil
+//@   assigns c.json
+//@   ensures c.json != nil
+
 // ---- JSON ---------------------------------------------------------------------------------
 // Entry-state invariant: the default pretty options are never written (no contract assigns pretty.Options fields).
 //@ axiom default_json_opts: defaultPrettyJSONOptions != nil && defaultPrettyJSONOptions.SortKeys && defaultPrettyJSONOptions.Indent == " " && defaultPrettyJSONOptions.Width == 0 && defaultPrettyJSONOptions.Prefix == ""
